@@ -355,6 +355,7 @@ def run(rep, facts, tier):
     rule_16_9(rep, fx)
     rule_16_10(rep, fx)
     rule_16_11(rep, fx)
+    rule_16_12(rep, fx)
 
     # ------------------------------------------------------------ R16.8 crossed roles (shared lint, rdv/swaplint.py)
     from rdv import swaplint
@@ -718,3 +719,177 @@ def rule_16_11(rep, fx):
                       'decode_rtps_message stops parsing the decrypted content before it is used up (the loop condition is not "content not empty"): a protected message is accepted '
                       'with submessages missing', b.where(rb))
     rep.floor('R16.11', n, 1, 'submessage parsing loops in decode_rtps_message')
+
+
+def _uncap(t):
+    """captured values and borrows read through"""
+    if isinstance(t, tuple):
+        if t and t[0] == 'captured' and len(t) > 2:
+            return _uncap(t[2])
+        if t and t[0] in ('ref', 'deref', 'copy') and len(t) > 1 and isinstance(t[1], tuple):
+            return _uncap(t[1])
+        return tuple(_uncap(x) for x in t)
+    return t
+
+
+def _drop_bb(t):
+    """call terms without their block number (the same expression evaluated twice is the same value here: pure accessors of the parsed header)"""
+    if isinstance(t, tuple):
+        if t and t[0] == 'call' and len(t) > 3:
+            return ('call', t[1], _drop_bb(t[2]))
+        return tuple(_drop_bb(x) for x in t)
+    return t
+
+
+def rule_16_12(rep, fx):
+    """The session key ties a protected unit to (master key, salt, session id): altering the session id or producing the unit under other key material must change the
+    key the receiver derives, and the initialisation vector used for the check must be the one the unit carries."""
+    from rdv.core import resolve_captures
+    CB = 'security::cryptographic::cryptographic_builtin::CryptographicBuiltin::'
+    rep.rule('R16.12', 'session key and IV binding: compute_session_key is HMAC-SHA256 keyed by master_key.as_bytes() over [prefix, master_salt.as_bytes(), iv.session_id().as_bytes()] '
+                       'in this order, prefix = b"SessionKey" / b"SessionReceiverKey" for ReceiverSpecific::No / Yes; every caller passes (No, master_sender_key) or (Yes, a '
+                       'receiver-specific key) with the master_salt of the same key material; on the decode side key material comes from get_decode_key_material(handle, header '
+                       'key id, scope) and the IV is the parameter "as received in header"; in the three decode functions the IV handed to the key derivation, to validate_mac / '
+                       'decrypt and to validate_receiver_specific_mac is one and the same builtin_crypto_header_extra.0 of the parsed CryptoHeader, and the MAC checked is the '
+                       'footer\'s common_mac; on the encode side both keys are derived from the IV that goes into EncodeSessionMaterials')
+    c = fx.find(CB + 'compute_session_key')
+    rep.analysed(c)
+    og = Origins(c, summaries=False)
+    bad = []
+    keys = [(bb, t) for bb, t in c.calls() if callee_res(t).endswith('hmac::Key::new')]
+    signs = [(bb, t) for bb, t in c.calls() if callee_res(t).endswith('hmac::sign')]
+    if len(keys) != 1 or len(signs) != 1:
+        bad.append('not one hmac::Key::new and one hmac::sign')
+    else:
+        k = og.of_operand(keys[0][1]['args'][1], keys[0][0], 'term')
+        if not (k[0] == 'call' and k[1].endswith('as_bytes') and _uncap(k[2][0]) == ('param', 2)):
+            bad.append('the HMAC key is %s, not master_key.as_bytes()' % term_str(k)[:60])
+        d = og.of_operand(signs[0][1]['args'][1], signs[0][0], 'term')
+        arr = [x for x in _aggs16(d) if str(x[1]).startswith('array')]
+        if not (d[0] == 'call' and d[1].endswith('concat') and arr and len(arr[0][2]) == 3):
+            bad.append('the signed data is not the concatenation of three parts (%s)' % term_str(d)[:80])
+        else:
+            p0, p1, p2 = arr[0][2]
+            pre = sorted(x[3] for x in _consts16(p0) if len(x) > 3 and x[1] == 'ptr')
+            if pre != [b'SessionKey', b'SessionReceiverKey']:
+                bad.append('prefixes are %s' % pre)
+            if not (p1[0] == 'call' and p1[1].endswith('as_bytes') and _uncap(p1[2][0]) == ('param', 3)):
+                bad.append('second part is %s, not master_salt.as_bytes()' % term_str(p1)[:60])
+            if not (p2[0] == 'call' and p2[1].endswith('as_bytes') and p2[2][0][0] == 'call' and p2[2][0][1].endswith('session_id') and _uncap(p2[2][0][2][0]) == ('param', 4)):
+                bad.append('third part is %s, not iv.session_id().as_bytes()' % term_str(p2)[:60])
+        # prefix by variant
+        for s_, t_, cond, lab in switch_edges(c, fx, og):
+            if cond[0] == 'discr' and cond[1] == ('param', 1) and lab in ('No', 'Yes'):
+                got = None
+                for st in c.blocks[t_]['st']:
+                    if st['s'] == 'assign':
+                        for x in _consts16(og._rvalue(st['rv'], t_, 0, 0)):
+                            if len(x) > 3 and x[1] == 'ptr':
+                                got = x[3]
+                want = b'SessionKey' if lab == 'No' else b'SessionReceiverKey'
+                if got is not None and got != want:
+                    bad.append('ReceiverSpecific::%s uses the prefix %r' % (lab, got))
+        # the result is the tag
+        r0 = og.of_local(0, c.return_blocks()[0], 'term')
+        if not term_has(r0, lambda x: x[0] == 'call' and x[1].endswith('hmac::sign')):
+            bad.append('the returned key is not built from the HMAC tag')
+    rep.check(not bad, 'R16.12', 'compute_session_key/formula', 'HMAC(master_key, prefix ++ master_salt ++ session_id), prefix by ReceiverSpecific',
+              'compute_session_key is not the session key derivation of DDS Security 9.5.3.3.3 (%s): the key no longer depends on every input an attacker may alter, or sender and '
+              'receiver keys coincide' % '; '.join(bad[:3]), c.where())
+    # callers
+    n = 0
+    for b in fx.bodies:
+        ogb = None
+        for bb, t in b.calls():
+            if not callee_res(t).endswith('compute_session_key'):
+                continue
+            ogb = ogb or Origins(b, summaries=False)
+            n += 1
+            args = [ogb.of_operand(a, bb, 'term') for a in t['args']]
+            if b.kind == 'closure':
+                args = [resolve_captures(fx, b, a, summaries=False) for a in args]
+            spec = 'Yes' if 'ReceiverSpecific::Yes' in str(args[0]) else ('No' if 'ReceiverSpecific::No' in str(args[0]) else '?')
+            key_s, salt_s = term_str(args[1]), term_str(args[2])
+            if spec == 'No':
+                okk = 'master_sender_key' in key_s or (b.name == 'session_encoding_materials')
+            else:
+                okk = 'master_receiver_specific_key' in key_s or key_s.endswith('.key') or '.key' in key_s
+            oks = 'master_salt' in salt_s or b.name == 'session_encoding_materials'
+            decode = 'decode' in b.key
+            okiv = (_uncap(args[3]) == ('param', 5)) if decode else term_has(args[3], lambda x: x[0] == 'call' and x[1].endswith('random_initialization_vector'))
+            src_ok = (not decode) or (term_has(args[1], lambda x: x[0] == 'call' and x[1].endswith('get_decode_key_material')) and
+                                      _drop_bb(_base_call(args[1], 'get_decode_key_material')) == _drop_bb(_base_call(args[2], 'get_decode_key_material')))
+            rep.check(spec != '?' and okk and oks and okiv and src_ok, 'R16.12', '%s/derive#%d' % (b.key.split('CryptographicBuiltin::')[-1], n),
+                      '(%s, matching key, master_salt of the same material, %s)' % (spec, 'IV as received' if decode else 'the IV that is sent'),
+                      '%s derives a session key from (%s, key %s, salt %s, iv %s): not the key/salt pair of one key material under the IV of the unit' %
+                      (b.key.split('CryptographicBuiltin::')[-1], spec, key_s[-50:], salt_s[-40:], term_str(args[3])[:50]), b.where(bb))
+    rep.floor('R16.12', n, 4, 'compute_session_key call sites')
+    # decode functions: one IV
+    for name in ('decode_rtps_message', 'decode_submessage', 'decode_serialized_payload'):
+        d = find_decode(fx, name)
+        fam = [d] + fx.closures_of(d)
+        ivs_key, ivs_use, macs = [], [], []
+        for b in fam:
+            ogb = Origins(b, summaries=False)
+            for bb, t in b.calls():
+                cr = callee_res(t)
+                last = cr.rsplit('::', 1)[-1]
+
+                def A(i):
+                    v = ogb.of_operand(t['args'][i], bb, 'term')
+                    return _drop_bb(_uncap(resolve_captures(fx, b, v, summaries=False) if b.kind == 'closure' else v))
+                if last in ('session_decode_crypto_materials', 'get_session_decode_crypto_materials'):
+                    ivs_key.append(A(len(t['args']) - 1))
+                elif last in ('validate_mac', 'decrypt') and 'aes_gcm_gmac' in cr:
+                    ivs_use.append(A(1))
+                    macs.append(A(3))
+                elif last == 'validate_receiver_specific_mac':
+                    ivs_use.append(A(1))
+                    macs.append(A(2))
+        ok = bool(ivs_key) and len(ivs_use) >= 2 and len(set(map(repr, ivs_key + ivs_use))) == 1 and \
+            all(term_has(x, lambda y: y[0] == 'field' and y[1] == 'builtin_crypto_header_extra') for x in ivs_key + ivs_use) and \
+            all(term_has(x, lambda y: y[0] == 'field' and y[1] == 'common_mac') for x in macs)
+        rep.check(ok, 'R16.12', '%s/one-iv' % name, '%d key derivation(s) and %d verification(s) under the header\'s IV; MAC = footer.common_mac' % (len(ivs_key), len(ivs_use)),
+                  '%s does not use one and the same initialisation vector - the one in the unit\'s CryptoHeader - for the key derivation and for every MAC check / decryption '
+                  '(distinct IV expressions: %d), or checks a MAC other than the footer\'s common_mac: an altered IV or session id is not rejected' %
+                  (name, len(set(map(repr, ivs_key + ivs_use)))), d.where())
+
+
+def _base_call(t, suffix):
+    out = []
+
+    def rec(x):
+        if isinstance(x, tuple):
+            if x and x[0] == 'call' and x[1].endswith(suffix):
+                out.append(x)
+            for y in x:
+                rec(y)
+    rec(t)
+    return out[0] if out else None
+
+
+def _aggs16(t):
+    out = []
+
+    def rec(x):
+        if isinstance(x, tuple):
+            if x and x[0] == 'agg':
+                out.append(x)
+            for y in x:
+                rec(y)
+    rec(t)
+    return out
+
+
+def _consts16(t):
+    out = []
+
+    def rec(x):
+        if isinstance(x, tuple):
+            if x and x[0] == 'const':
+                out.append(x)
+                return
+            for y in x:
+                rec(y)
+    rec(t)
+    return out
